@@ -124,6 +124,11 @@ def handle : List String → String
   | ["bytes", body, _, _] => match (unhex body).bind utf8Decode with
     | some cs => showRes "ok" (bytesCheck 0 cs)
     | none => "bad-request"
+  | ["byteslit", pfx, _, body, _, _] => match (unhex body).bind utf8Decode with
+    | some cs =>
+      if oddTrailingBackslash cs then "bad-request"
+      else showRes "ok" (bytesLit (pfx.toList.any (fun c => c == 'r' || c == 'R')) cs)
+    | none => "bad-request"
   | ["fstr", body] => match (unhex body).bind utf8Decode with
     | some cs => showRes "ok" (fstrCheck cs)
     | none => "bad-request"
